@@ -1182,6 +1182,55 @@ pub fn run_keepalive(cx: &mut Ctx, rng: &mut Rng, shapes: &[ReqShape]) {
     }
 }
 
+
+/// `extending_splice` is a public helper: called directly, with exclusive and inclusive ranges
+/// (start <= end), it must behave like the handler's use of it (model: `extendingSplice`)
+fn run_splice_direct(cx: &mut Ctx) {
+    use coap_lite::block_handler::extending_splice;
+    for &dstlen in &[0usize, 1, 16, 40, 100] {
+        for &start in &[0usize, 1, 15, 16, 40, 99, 100, 120, 16384, 16500] {
+            for &len in &[0usize, 1, 16, 64] {
+                for &paylen in &[0usize, 1, 16, 20, 70] {
+                    for &maxres in &[0usize, 16, 16384] {
+                        let stop = start + len;
+                        for incl in [false, true] {
+                            if incl && stop == 0 {
+                                continue;
+                            }
+                            let mut dst: Vec<u8> = (0..dstlen).map(|i| (i + 1) as u8).collect();
+                            let pay = vec![0xAAu8; paylen];
+                            let r = guarded(|| {
+                                let res = if incl {
+                                    extending_splice(&mut dst, start..=stop - 1, pay.iter().copied(), maxres).map(|s| drop(s))
+                                } else {
+                                    extending_splice(&mut dst, start..stop, pay.iter().copied(), maxres).map(|s| drop(s))
+                                };
+                                res.map(|_| dst.clone()).map_err(|_| ())
+                            });
+                            let line = format!("BLK splice {} {} {} {} {}", dstlen, start, stop, paylen, maxres);
+                            let out = match &r {
+                                None => "panic".to_string(),
+                                Some(Err(())) => "err".to_string(),
+                                Some(Ok(d)) => format!("ok {} {} {}", d.len(), hex(&d[..d.len().min(40)]), hex(&d[d.len().saturating_sub(8)..])),
+                            };
+                            cx.case(&line, &out);
+                            if r.is_none() {
+                                cx.oracle_fail("C11", &line, "extending_splice panicked on a well-ordered range");
+                            }
+                            if let Some(Ok(d)) = &r {
+                                let grown = d.len().saturating_sub(dstlen);
+                                if grown > maxres + paylen {
+                                    cx.oracle_fail("C11", &line, &format!("buffer grew by {} bytes, more than the reserve {} plus the payload {}", grown, maxres, paylen));
+                                }
+                            }
+                        }
+                    }
+                }
+            }
+        }
+    }
+}
+
 /// reclamation: abandoned transfers do not hold memory after expiry + one more use (observed through the allocator)
 fn run_reclaim(cx: &mut Ctx, shapes: &[ReqShape]) {
     let shape = &shapes[0];
@@ -1725,6 +1774,7 @@ pub fn run(cx: &mut Ctx) {
             cx.oracle_fail("C20", &line, &format!("cached response did not survive {} intervening requests on other keys within the expiry time", n_other));
         }
     }
+    run_splice_direct(cx);
     run_reclaim(cx, &shapes);
     let _ = (parse_val("-"), BlockValue::try_from(vec![]).is_ok(), ResponseType::Content);
 }
